@@ -34,6 +34,7 @@ func (c *Ctx) successOnlyVia(rule string, fn *ssa.Function, ev Ev, why string) b
 }
 
 func rulesC19(c *Ctx) {
+	c19Round5(c)
 	c.Explain = append(c.Explain,
 		"C19 (stateless nodes return provider data only if header-bound) — decided: (a) in package stateless every call on the untrusted provider is either a tabled pass-through the code documents as unverifiable, or its result can reach a success return (or the block broadcast) only through the success edge of its verifier, called with that result and a light block obtained from the light client; the provider is never asked for light blocks; (b) each verifier's success exits pass every binding comparison: block height/hash/time/state-root namespace, version, type, hash/meta header/last commit; results height + results hash for heights below the latest trusted one (the unverified branch is guarded by exactly lastTrusted <= lb.Height); parameters height + consensus hash + decoded parameters; transactions data hash; next validators height+1 and NextValidatorsHash; inclusion proofs verify against DataHash over the CBOR of the submitted transaction; merkle.Verify/VerifyTransaction answer success only through the CometBFT proof verification of the (hashed) item; verifyBlock reads every field of the block except the tabled Size; (c) every remote-backed tree in the light query factories is rooted at the StateRooter's result (success edge), and Core.StateRoot's hash comes from a verified header's AppHash or from the verified transaction list.",
 		"NOT decided: CometBFT light-client verification itself, Merkle proof soundness (C04), completeness of CometBFT header hashing.")
